@@ -606,6 +606,14 @@ static Token *subst(Token *tok, MacroArg *args) {
 
       if (arg->tok->kind == TK_EOF) {
         MacroArg *arg2 = find_arg(args, rhs);
+
+        // Both operands are empty and the result is the left operand of
+        // another ##: continue with the empty `rhs` in the place of `tok`.
+        if (arg2 && arg2->tok->kind == TK_EOF && equal(rhs->next, "##")) {
+          tok = rhs;
+          continue;
+        }
+
         if (arg2) {
           for (Token *t = arg2->tok; t->kind != TK_EOF; t = t->next)
             cur = cur->next = copy_token(t);
